@@ -3576,7 +3576,12 @@ class FuncRun(ValueFunc):
         file = args.getString("file").value
         path = file
         if not path.startswith("/") and not path.startswith("."):
-            path = os.getcwd() + "/" + path
+            try:
+                path = os.getcwd() + "/" + path
+            except OSError:     # the working directory was removed
+                raise CklRuntimeError(
+                    ValueString("ERROR"), "Cannot run " + file, pos
+                )
         script = ""
         try:
             with open(path, encoding="utf-8") as infile:
